@@ -123,8 +123,12 @@ func genC15(p *sim.Plan, r *sim.Rand, tier string) {
 		p.Ops = append(p.Ops, sim.Op{At: at, Actor: 0, Kind: "emit", I: []int64{0, int64(r.Intn(3))}})
 	}
 	// emits placed in the connect-pending window: offset after the k-th re-open of the manager
-	for i := 0; i < r.Weighted([]int{3, 2, 1}); i++ {
-		p.Ops = append(p.Ops, sim.Op{At: 1 << 60, Actor: 0, Kind: "emit_on_open", I: []int64{0, int64(r.Intn(3)), int64(r.Range(1, 2)), r.I64n(4_000_000) * int64(r.Intn(2))}})
+	for i := 0; i < r.Weighted([]int{1, 2, 2, 2}); i++ {
+		off := int64(0)
+		if r.Bool(0.7) {
+			off = r.I64n(2*p.C("lat_us")*1000 + 200_000) // up to the arrival of the CONNECT reply
+		}
+		p.Ops = append(p.Ops, sim.Op{At: 1 << 60, Actor: 0, Kind: "emit_on_open", I: []int64{0, int64(r.Intn(3)), int64(r.Range(1, 2)), off}})
 	}
 	// emits made before the very first Connect call: buffered, delivered when the socket connects
 	for i := 0; i < r.Weighted([]int{2, 1, 1}); i++ {
@@ -258,6 +262,7 @@ func runC15(e *sim.Env) {
 			emit(op)
 		}
 	}
+	lastFaultEnd := int64(1 << 62) // until known
 	reactDone := false
 	onConnectFrame = func() {
 		// (called by the protocol-level server for every CONNECT frame)
@@ -277,6 +282,9 @@ func runC15(e *sim.Env) {
 			w.Net.Apply(sim.Fault{Kind: "cut", Target: "c0*"})
 			time.Sleep(time.Duration(p.C("delay_ms")) * time.Millisecond / 2)
 			w.Net.Apply(sim.Fault{Kind: "heal", Target: "*"})
+			mu.Lock()
+			lastFaultEnd = e.Now()
+			mu.Unlock()
 		})
 	}
 	cli.Socket.Connect()
@@ -322,6 +330,11 @@ func runC15(e *sim.Env) {
 			w.Net.Apply(sim.Fault{Kind: "heal", Target: "*"})
 		}
 		e.Log(0, "healed", "")
+		mu.Lock()
+		if lastFaultEnd == 1<<62 || e.Now() > lastFaultEnd {
+			lastFaultEnd = e.Now()
+		}
+		mu.Unlock()
 	})
 	opens := 0
 	cli.OnLife = func(kind string) {
@@ -479,6 +492,7 @@ func runC15(e *sim.Env) {
 			}
 		}
 	}
+	endOfRun := e.Now()
 	if lastConn >= 0 {
 		connected = append(connected, window{lastConn, 1 << 62})
 	}
@@ -543,10 +557,15 @@ func runC15(e *sim.Env) {
 			if m.kind != 1 && n == 0 && connectedNow && gaveUpAt < 0 && stableAfter(m) {
 				e.Violate("C15/offline-emit-lost", sig+" pending "+kindName, "emit #%d (%s) made while the socket was waiting for its CONNECT reply (t=%d) was never delivered although the socket connected; events: %s", m.id, kindName, m.inv, tailEvents(evs, 6))
 			}
-		case in(connected, m, slackOf(m)+int64(50*time.Millisecond)) >= 0:
-			// a stable connection: C01's business, asserted here too for non-volatile emits
-			if n == 0 && m.kind != 1 && m.ret < outStart-int64(100*time.Millisecond) {
-				e.Violate("C15/online-emit-lost", sig+" "+kindName, "emit #%d (%s) made on a connected socket long before the outage was never delivered", m.id, kindName)
+		case in(connected, m, slackOf(m)+int64(100*time.Millisecond)) >= 0 &&
+			(m.ret < outStart-int64(100*time.Millisecond) || connected[in(connected, m, slackOf(m)+int64(100*time.Millisecond))].from > lastFaultEnd):
+			// (during the outage the client can believe for a while that it is connected: what it emits
+			// into a dead connection is lost in flight. Only connections of a healthy network count:
+			// before the outage, or established after the last fault ended.)
+			// a connection that was up well before and well after the call (C01's business, asserted here
+			// too: a send path that is wedged after a reconnection shows here)
+			if n == 0 && m.kind != 1 && m.ret < endOfRun-int64(2*time.Second) {
+				e.Violate("C15/online-emit-lost", sig+" "+kindName, "emit #%d (%s) made at t=%d on a socket that was connected from 100 ms before to 100 ms after the call was never delivered; events: %s", m.id, kindName, m.inv, tailEvents(evs, 6))
 			}
 		}
 	}
